@@ -145,35 +145,35 @@ func gen(r *hx.Rand, n int, tier string, emit func(string), st *hx.Stats) {
 		c := r.Fork()
 		k := c.Intn(1000)
 		switch {
-		case k < 430:
+		case k < 410:
 			st.Inc("mq")
 			emit(genMq(c, tier))
-		case k < 650:
+		case k < 620:
 			st.Inc("aq")
 			emit(genAq(c, tier))
-		case k < 800:
+		case k < 760:
 			st.Inc("mstress")
 			items := 20 + c.Intn(180)
 			if tier == "thorough" {
 				items = 50 + c.Intn(1500)
 			}
 			emit(fmt.Sprintf("mstress %d %d %d %d %d %d", pick(c, 2, 2, 4, 8, 64), pick(c, 0, 0, 1, 3, -1, -1), 1+c.Intn(4), 1+c.Intn(4), items, c.Intn(2)))
-		case k < 920:
+		case k < 870:
 			st.Inc("astress")
 			items := 20 + c.Intn(180)
 			if tier == "thorough" {
 				items = 50 + c.Intn(1500)
 			}
 			emit(fmt.Sprintf("astress %d %d %d", 1+c.Intn(4), items, c.Intn(2)))
-		case k < 970:
+		case k < 920:
 			st.Inc("win")
 			// mostly the pipeline's discipline (one consumer); sometimes the general container claim
 			nR := pick(c, 1, 1, 1, 1, 1, 1, 1, 1, 1, 1, 1, 2, 3)
 			emit(fmt.Sprintf("win %d %d %d", pick(c, 2, 4, 8), nR, 1+c.Intn(3)))
-		case k < 978:
+		case k < 935:
 			st.Inc("winC")
 			emit(fmt.Sprintf("winC %d %d %d", pick(c, 2, 4), 1+c.Intn(3), c.Intn(3)))
-		case k < 983:
+		case k < 955:
 			st.Inc("race")
 			capacity := pick(c, 4, 8)
 			nS := 2 + c.Intn(3)
@@ -187,7 +187,7 @@ func gen(r *hx.Rand, n int, tier string, emit func(string), st *hx.Stats) {
 				ps[j] = strconv.Itoa(x)
 			}
 			emit(fmt.Sprintf("race %d %s", capacity, strings.Join(ps, ",")))
-		case k < 990:
+		case k < 970:
 			st.Inc("awin")
 			emit(fmt.Sprintf("awin %d %d", 1+c.Intn(4), c.Intn(2)))
 		default:
